@@ -437,9 +437,13 @@ class IMAPSearch:
                 if elt == msg_number:
                     return True
             elif isinstance(elt, tuple):
-                if isinstance(elt[1], str) and elt[1] == "*":
-                    elt = (elt[0], self.ctx.seq_max)
-                if msg_number >= elt[0] and msg_number <= elt[1]:
+                # Either end may be '*' and a range may be given in either
+                # order: `a:b` and `b:a` are the same range (rfc3501 §9)
+                #
+                start, end = (
+                    self.ctx.seq_max if x == "*" else x for x in elt
+                )
+                if min(start, end) <= msg_number <= max(start, end):
                     return True
         return False
 
@@ -563,8 +567,12 @@ class IMAPSearch:
                 if elt == uid:
                     return True
             elif isinstance(elt, tuple):
-                if isinstance(elt[1], str) and elt[1] == "*":
-                    elt = (elt[0], self.ctx.uid_max)
-                if uid >= elt[0] and uid <= elt[1]:
+                # Either end may be '*' and a range may be given in either
+                # order: `a:b` and `b:a` are the same range (rfc3501 §9)
+                #
+                start, end = (
+                    self.ctx.uid_max if x == "*" else x for x in elt
+                )
+                if min(start, end) <= uid <= max(start, end):
                     return True
         return False
